@@ -1,0 +1,41 @@
+//go:build verif
+
+package layout
+
+import "github.com/tsawler/tabula/text"
+
+// Exported wrappers for the verification harness (add-only; not part of the API).
+
+// VerifNormalizeForComparison exposes normalizeForComparison.
+func VerifNormalizeForComparison(s string) string { return normalizeForComparison(s) }
+
+// VerifIsPageNumberPattern exposes isPageNumberPattern.
+func VerifIsPageNumberPattern(s string) bool { return isPageNumberPattern(s) }
+
+// VerifTextsMatch exposes textsMatch.
+func VerifTextsMatch(fragText, regionText string, isPageNumber bool) bool {
+	return textsMatch(fragText, regionText, isPageNumber)
+}
+
+// VerifContainsPageNumberPattern exposes containsPageNumberPattern on a group
+// of candidate texts.
+func VerifContainsPageNumberPattern(texts []string) bool {
+	group := make([]candidate, len(texts))
+	for i, t := range texts {
+		group[i] = candidate{Text: t}
+	}
+	return containsPageNumberPattern(group)
+}
+
+// VerifIsCharacterLevel exposes isCharacterLevel on fragment texts.
+func VerifIsCharacterLevel(texts []string) bool {
+	return isCharacterLevel(verifFrags(texts))
+}
+
+func verifFrags(texts []string) []text.TextFragment {
+	fs := make([]text.TextFragment, len(texts))
+	for i, t := range texts {
+		fs[i] = text.TextFragment{Text: t}
+	}
+	return fs
+}
